@@ -8,9 +8,10 @@ Layers (each fully proved):
   L3 value stores        — Lemmas/DirFileA.lean
   L2 layout codec        — Lemmas/DirFileB.lean
   L1 entry codec         — Lemmas/DirFileC.lean (raw level), DirFileD/E/F.lean (schema level)
-  L4/L5 file, open       — Lemmas/DirFileG.lean, DirFileH.lean, this file
+  L4/L5 file, open       — Lemmas/DirFileG.lean, DirFileH.lean, DirFileI.lean (index tails),
+                           this file
 -/
-import JubakoModel.Lemmas.DirFileH
+import JubakoModel.Lemmas.DirFileI
 import JubakoModel.Theorems.C03
 
 namespace Jubako
@@ -373,6 +374,14 @@ theorem dirGetEntry_dirPackWrite (H : Bytes → Bytes) (vendor uuid freeData : B
   rw [show d.readerLayout.entrySize = d.entrySize from rfl, hslice i hi]
   exact hrt
 
+/-- the same theorem under the name used in the design notes -/
+theorem dirfile_roundtrip (H : Bytes → Bytes) (vendor uuid freeData : Bytes) (d : DirIn)
+    (hwf : d.WF) (hl : d.Limits H vendor uuid freeData) :
+    ∀ i (hi : i < d.entries.length),
+      dirGetEntry (dirPackWrite H vendor uuid freeData d) 0 i =
+        .ok (expectedEntry d.schema d.entries[i]) :=
+  fun i hi => dirGetEntry_dirPackWrite H vendor uuid freeData d hwf hl i hi
+
 /-- … and beyond the stored entries the reader finds nothing -/
 theorem dirGetEntry_dirPackWrite_none (H : Bytes → Bytes) (vendor uuid freeData : Bytes)
     (d : DirIn) (hwf : d.WF) (hl : d.Limits H vendor uuid freeData) (i : Nat)
@@ -601,6 +610,12 @@ example : dirGetEntry (dirPackWrite hash vendor uuid freeData input) 0 2 =
 
 example : dirGetEntry (dirPackWrite hash vendor uuid freeData input) 0 3 = .err .other :=
   dirGetEntry_dirPackWrite_none hash vendor uuid freeData input input_wf limits 3 (by decide)
+
+
+example : dirGetIndex (dirPackWrite hash vendor uuid freeData input) 0 =
+    .ok ⟨0, 3, 0, [0, 0, 0, 0], 0, [105]⟩ :=
+  dirGetIndex_dirPackWrite hash vendor uuid freeData input rfl rfl rfl (by decide) (by decide)
+    (by decide) limits.fileSize 0 (by decide)
 
 
 /-! a schema without variants (the other branch of `serializeEntry` / `decodeEntry`): a content
